@@ -121,13 +121,19 @@ def corpus_cases(ctx):
     # other-typed twins inside ONE membership tuple, both orders
     for a, b in [(gen.lit_str("7", quote='"'), gen.lit_int(7)), (gen.lit_float("1.5"), gen.lit_str("1.5", quote='"')), (gen.lit_int(1), gen.lit_float("1.0")),
                  (gen.lit_str("0", quote='"'), gen.lit_int(0)), (gen.lit_int(0), gen.lit_float("-0.0")), (gen.lit_str("x", quote='"'), gen.lit_str("x", quote="'")),
-                 (gen.lit_int(2 ** 53), gen.lit_float("9007199254740992.0")), (gen.lit_str("(1, 2)", quote='"'), gen.lit_int(3))]:
+                 (gen.lit_int(2 ** 53), gen.lit_float("9007199254740992.0")), (gen.lit_str("(1, 2)", quote='"'), gen.lit_int(3))] + gen.hash_twin_pairs():
         for x, y in ((a, b), (b, a)):
             for op in ("in", "not in"):
                 extra = [("lit", gen.lit_str("zz", quote='"'))] if rng.random() < 0.5 else []
                 pred = ("cmp", ("id", "x"), op, ("tuple", [("lit", x), ("lit", y)] + extra))
                 vals = [x.value, y.value, str(x.value), str(y.value), "zz", 8, (1, 2)]
                 cases.append({"prog": gen.Program("e", None, ["u"], tf(pred), {"u": "any", "x": "any"}), "envs": [{"u": 1, "x": v} for v in vals], "form": "twin-tuple"})
+    # values of equal hash as the groups of one return statement and as the literals of one else-if chain
+    for a, b in gen.hash_twin_pairs():
+        cases.append({"prog": gen.Program("e", None, ["u"], ("ret", [(a, "1"), (b, "1"), (a, "2")]), {"u": "any"}), "envs": [{"u": "unit%d" % k} for k in range(12)], "form": "hash-twin-groups"})
+        one = lambda t: ("ret", [(gen.lit_str(t, quote='"'), "1")])
+        chain = ("if", ("cmp", ("id", "x"), "==", ("lit", a)), one("A"), ("elif", ("cmp", ("id", "x"), "==", ("lit", b)), one("B"), ("else", one("N"))))
+        cases.append({"prog": gen.Program("e", None, ["u"], chain, {"u": "any", "x": "any"}), "envs": [{"u": 1, "x": v} for v in (a.value, b.value, str(a.value), 0)], "form": "hash-twin-chain"})
     for c in cases:
         c["text"] = gen.render(c["prog"], rng, "plain")
     return cases
